@@ -38,6 +38,11 @@ Correspondence.  For every generated (schema version, document):
      type with valid and invalid content, an undeclared name without xsi:type, a local-only element name (with and
      without xsi:type), a root in an unknown namespace and in no namespace (with and without xsi:type): the
      validation generator and the decoding generator each have their own look-up of the root declaration.
+  9. character data around comment / PI nodes: the inserted node is followed / preceded by text or whitespace in 70 % of
+     the comment variants, plus per family one document x 3 positions x {comment, PI} followed by text; unit table of
+     the character-data check of element-only content (text x child sequences of elements / comments / PIs x tails)
+     from text, lxml and a comment-keeping ElementTree against CharData.hasCdata / hasCdataDropped
+     (cdata_check_source_independent).  Finding C04-F7 is matched only when the differing errors are XPath-based.
   7. nested namespace declarations.  Family Q (harness/lib_c04q.py): key / unique / keyref over xs:QName attributes,
      QName element content and lists of QNames, in documents where the prefix of the value is re-bound on the last
      child, a middle child, the last descendant, the selected element itself, a sibling (every field x every
@@ -75,7 +80,7 @@ PROPS = 'XsVerif.Props.C04'
 AUDIT = 'XsVerif.Audit.C04'
 LEAN_TARGETS = ['XsVerif.Props.C04', 'drv_c04']
 LEANCHECK = ['XsVerif.Model.Modes', 'XsVerif.Lemmas.Modes', 'XsVerif.Model.AttrDefaults', 'XsVerif.Lemmas.AttrDefaults',
-             'XsVerif.Model.NsLeak',
+             'XsVerif.Model.NsLeak', 'XsVerif.Model.CharData',
              'XsVerif.Props.C04']
 RULE = ('a case is one (XSD version, schema family, generated document); documents are valid instances damaged by '
         '0-5 faults drawn from 24 fault classes (content model, datatypes/facets, attribute uses, xsi:type / '
@@ -153,6 +158,8 @@ def known_match(case: dict, detail: Any) -> Optional[str]:
             can't have child elements" / "xsi:nil='true' but the element is not empty".
     C04-F7  as C04-F6 without one of these two errors (character data after a comment / PI is not read: mixed and
             xs:anyType content, XPath-based assertions and identity fields).
+    C04-F8  as C04-F6, where the only differing errors are "character data is not allowed because content is empty"
+            errors that the text source reports and the comment-keeping tree does not.
     C11-F4  OverflowError raised by a skip-mode decoding entry point for a value the lax run reports as
             'year overflow' style decode error.
     C11-F5  XMLSchemaKeyError "global component … not found" for an xsi:type attribute on a non-root element.
@@ -170,6 +177,8 @@ def known_match(case: dict, detail: Any) -> Optional[str]:
     if kind == 'comment-nodes' and detail.get('attributable'):
         if detail.get('simple_content_or_nil'):
             return 'C04-F6'
+        if detail.get('only_empty_content_errors_missing_in_tree'):
+            return 'C04-F8'
         return 'C04-F7' if detail.get('differing_errors_are_xpath_based') else None
     if kind == 'verdict' and detail.get('only_reference_errors') and detail.get('dissenting_all_decode'):
         return 'C04-F2'
@@ -796,11 +805,14 @@ def comment_attribution(env: Env, case: dict, pc: dict, src: 'Sources', eps: dic
         text_errors = base.get('iter_errors', {}).get('ok') or [] if isinstance(base.get('iter_errors'), dict) else []
         err_diff = sorted(set(tree_errors) ^ set(text_errors))
         xpath_only = all(XPATH_ERROR_RE.search(r) for r in err_diff)
+        empty_only = bool(err_diff) and all('character data is not allowed because content is empty' in r and
+                                            r in text_errors and r not in tree_errors for r in err_diff)
         n_before = len(ctx.failures)
         ctx.count('cm:outcome-differs:' + kind)
         report(ctx, 'comment / PI nodes of a tree source change the outcome (verdict or data depend on the source kind)', pc,
                {'kind': 'comment-nodes', 'source': kind, 'attributable': attributable, 'simple_content_or_nil': simple,
                 'differing_errors': err_diff[:6], 'differing_errors_are_xpath_based': xpath_only,
+                'only_empty_content_errors_missing_in_tree': empty_only,
                 'differing_entry_points': differing[:8], 'text:iter_errors': base.get('iter_errors'),
                 '%s:iter_errors' % kind: outs[kind].get('iter_errors'),
                 'text:decode:lax': json.dumps(base.get('decode:lax'), default=str)[:300],
@@ -1283,6 +1295,59 @@ def wildcard_unit(env: 'Env', drv: Optional[Driver], only: Optional[dict] = None
                              ans if 'err' in ans else {m: [ek.get(x, x) for x in ans[m]] for m in MODES})
 
 
+def cdata_unit(env: 'Env', drv: Optional[Driver]) -> None:
+    """The character-data check of element-only content (groups.py:972-981) against CharData.hasCdata /
+    hasCdataDropped: text of the element x sequences of children (element | comment | PI) x tails (empty, whitespace,
+    text) — every sequence up to length 2, a sample of length 3 — from text, from an lxml tree and from an ElementTree
+    that keeps comment / PI nodes.  On the real code: the three sources give the same verdict."""
+    import itertools
+    import lxml.etree as LE
+    from xml.etree import ElementTree as ET
+    ctx = env.ctx
+    reason = 'character data between child elements not allowed'
+    opts = [(k, t) for k in ('e', 'c', 'p') for t in ('', '\n ', 'x')]
+    seqs: list = [()]
+    seqs += [(a,) for a in opts] + list(itertools.product(opts, repeat=2))
+    triples = list(itertools.product(opts, repeat=3))
+    ctx.rng.shuffle(triples)
+    seqs += triples[:ctx.pick(120, 729)]
+    render = {'e': '<item/>', 'c': '<!-- c -->', 'p': '<?pi x?>'}
+    reqs, pend = [], []
+    for i, seq in enumerate(seqs):
+        for text in ('', ' ', 'stray'):
+            v11 = bool((i + len(text)) % 2)
+            schema = env.schemas['Q', v11]
+            xml = '<root>%s%s</root>' % (text, ''.join(render[k] + t for k, t in seq))
+            case = {'v': '1.1' if v11 else '1.0', 'family': 'Q', 'xml': xml, 'unit': 'character data check'}
+
+            def has(src: Any) -> bool:
+                return any(reason in (e.reason or '') for e in schema.iter_errors(src))
+            try:
+                real = {'text': has(xml), 'lxml': has(LE.fromstring(xml)),
+                        'etc': has(ET.fromstring(xml, parser=ET.XMLParser(target=ET.TreeBuilder(insert_comments=True,
+                                                                                                insert_pis=True))))}
+            except RecursionError:
+                raise
+            except Exception as e:  # noqa
+                report(ctx, 'character data check raised', case,
+                       {'kind': 'exception', 'exc': type(e).__name__, 'msg': str(e)[:200], 'entry': 'iter_errors'})
+                continue
+            nodes_with_text = sum(1 for k, t in seq if k != 'e' and t.strip())
+            ctx.case(case, bool(seq), tag='cdata-unit')
+            ctx.count('cdata:%s' % ('comment-or-PI-followed-by-text' if nodes_with_text else
+                                    'comment-or-PI-without-text' if any(k != 'e' for k, _ in seq) else 'elements-only'))
+            if len(set(real.values())) > 1:
+                ctx.failure('element-only content: whether character data is reported depends on the source kind', case,
+                            {'reported_by': real})
+            reqs.append({'op': 'cdata', 'text': text, 'kids': [['e' if k == 'e' else 'n', t] for k, t in seq]})
+            pend.append((case, real))
+    if drv is not None and reqs:
+        for (case, real), ans in zip(pend, drv.query(reqs)):
+            ctx.traces += 1
+            if 'err' in ans or ans['tree'] != real['lxml'] or ans['tree'] != real['etc'] or ans['dropped'] != real['text']:
+                ctx.mismatch('character-data check of element-only content', case, real, ans)
+
+
 def compare(ctx: Ctx, reqs: list, pend: list, drv: Driver) -> None:
     answers = drv.query(reqs)
     for (what, pc, ids, outs, kinds), ans in zip(pend, answers):
@@ -1565,6 +1630,8 @@ def insert_comment(rng: Any, xml: str) -> tuple[str, str]:
     # character data around the node: in a tree that keeps the node, text AFTER it is the node's tail, text BEFORE it
     # stays the tail of the preceding element / the text of the parent
     r = rng.random()
+    if i >= len(xml.rstrip()):
+        r = 1.0                        # after the root element: no character data allowed by XML itself
     if r < 0.4:
         node, text = node + rng.choice(['stray', ' stray text ', 'x']), 'text-after'
     elif r < 0.55:
@@ -1636,6 +1703,13 @@ def witness_cases() -> list[dict]:
         # findings C04-F6 / C04-F7: a comment / PI node inside simple content, inside xs:anyType content
         {'v': '1.0', 'family': 'N', 'style': 'prefix', 'prefix_dependent': False, 'faults': [],
          'cm': 'after-leaf-text:comment', 'xml': '<doc><yr>2024<!-- c --></yr></doc>'},
+        # finding C04-F8: comment + character data inside an element with empty content
+        {'v': '1.0', 'family': 'V', 'style': 'prefix', 'prefix_dependent': False, 'faults': ['C01 character data'],
+         'cm': 'before-leaf-text:comment:text-after',
+         'xml': '<p:reg xmlns:p="urn:t"><p:def id="a"><!-- c -->stray</p:def></p:reg>'},
+        # cdata_skipping_nodes_counterexample: comment followed by character data in element-only content
+        {'v': '1.0', 'family': 'Q', 'style': 'prefix', 'prefix_dependent': True, 'faults': ['C01 character data'],
+         'cm': 'after-a-tag:comment:text-after', 'xml': '<root xmlns:p="urn:a"><item code="p:x"/><!-- c -->stray</root>'},
         {'v': '1.0', 'family': 'T', 'style': 'prefix', 'prefix_dependent': False, 'faults': [],
          'cm': 'before-leaf-text:pi',
          'xml': '<p:root xmlns:p="urn:t" xmlns:o="urn:o" version="2"><p:title>x</p:title><o:any0><?pi x?>free</o:any0></p:root>'},
@@ -1643,7 +1717,7 @@ def witness_cases() -> list[dict]:
 
 
 def run(ctx: Ctx, driver_ok: bool) -> None:
-    ctx.known.extend(e for e in local_findings() if e.get('id') in ('C04-F2', 'C04-F3', 'C04-F5', 'C04-F6', 'C04-F7', 'C11-F4', 'C11-F5', 'C11-F7')
+    ctx.known.extend(e for e in local_findings() if e.get('id') in ('C04-F2', 'C04-F3', 'C04-F5', 'C04-F6', 'C04-F7', 'C04-F8', 'C11-F4', 'C11-F5', 'C11-F7')
                      and not any(k['id'] == e['id'] for k in ctx.known))
     drv = Driver('drv_c04') if driver_ok else None
     env = Env(ctx)
@@ -1662,6 +1736,7 @@ def run(ctx: Ctx, driver_ok: bool) -> None:
         if drv and reqs:
             compare(ctx, reqs, pend, drv)
         wildcard_unit(env, drv)
+        cdata_unit(env, drv)
         sample = [c for c in cases[len(witness_cases()):] if c['family'] in 'TNVWQ' and c.get('ud', True) and not c.get('cm')]
         ctx.rng.shuffle(sample)
         cli_checks(env, drv, sample[:ctx.pick(6, 40)])
